@@ -2801,6 +2801,7 @@ static void struct_members(Token **rest, Token *tok, Type *ty) {
       mem->ty = basety;
       mem->idx = idx++;
       mem->align = attr.align ? attr.align : mem->ty->align;
+      mem->has_alignas = attr.align;
       cur = cur->next = mem;
       continue;
     }
@@ -2824,6 +2825,7 @@ static void struct_members(Token **rest, Token *tok, Type *ty) {
         error_tok(tok, "field has incomplete type");
       mem->idx = idx++;
       mem->align = attr.align ? attr.align : mem->ty->align;
+      mem->has_alignas = attr.align;
 
       if (consume(&tok, tok, ":")) {
         mem->is_bitfield = true;
@@ -2951,7 +2953,7 @@ static Type *struct_decl(Token **rest, Token *tok) {
       bits += mem->bit_width;
     } else {
       // Even in a packed struct a non-bit-field member starts on a byte boundary.
-      bits = align_to(bits, ty->is_packed ? 8 : mem->align * 8);
+      bits = align_to(bits, (ty->is_packed && !mem->has_alignas) ? 8 : mem->align * 8);
       mem->offset = bits / 8;
       bits += mem->ty->size * 8;
     }
@@ -2959,7 +2961,7 @@ static Type *struct_decl(Token **rest, Token *tok) {
     // The type of an unnamed bit-field does not affect the alignment
     // of the struct.
     bool is_unnamed_bitfield = mem->is_bitfield && !mem->name;
-    if (!ty->is_packed && !is_unnamed_bitfield && ty->align < mem->align)
+    if ((!ty->is_packed || mem->has_alignas) && !is_unnamed_bitfield && ty->align < mem->align)
       ty->align = mem->align;
   }
 
